@@ -10,7 +10,7 @@ from __future__ import annotations
 
 import ast
 
-from .canon import local_by_value, local_passed_to, local_stored_to, local_unpacked_from, loop_var_over
+from .canon import local_by_value, local_none_then_loop_index, local_passed_as, local_passed_to, local_stored_to, local_unpacked_from, loop_var_over
 
 
 def _u(e):
@@ -44,6 +44,12 @@ ROLES = {
         "atoms": local_passed_to("Molecule", 0),
         "atom_idx": local_passed_to("self._parse_bond", 1),
         "coords": local_stored_to("result.coords[:, :2]"),
+    },
+    "molli/pipeline/runner.py:run_local": {
+        "job": local_by_value(lambda v: isinstance(v, ast.Call) and _u(v.func).endswith("JobInput.load")),
+        "fail": local_none_then_loop_index(),
+        "retfiles": local_passed_as("JobOutput", "files"),
+        "proc": local_by_value(lambda v: isinstance(v, ast.Call) and (_u(v.func) == "run" or _u(v.func).endswith("subprocess.run"))),
     },
     "molli/storage/ukvfile.py:UKVFile.put": {
         "header": local_by_value(lambda v: isinstance(v, ast.Call) and _u(v.func).endswith(".pack")),
